@@ -1,13 +1,24 @@
 """Property -> machinery map.  `units`: Verus units whose tagged obligations decide the property;
 `kani`: harness groups; `witness`: replay sub-command used to look for a concrete failing input."""
+ALL = ['directory', 'tile_manager', 'read_directories', 'write_directories', 'header', 'pmtiles']
 PROPS = {
-    'C07': {'units': [], 'kani': ['tile_id'], 'witness': 'C07'},
+    'C01': {'units': ALL, 'kani': ['latlng'], 'witness': 'C01'},
+    'C02': {'units': ['pmtiles', 'write_directories', 'tile_manager', 'directory', 'header'], 'witness': 'C02'},
+    'C03': {'units': ['pmtiles', 'read_directories', 'directory', 'tile_manager', 'header'], 'witness': 'C03'},
+    'C04': {'units': ['tile_manager', 'pmtiles'], 'witness': 'C04'},
     'C05': {'units': ['directory'], 'kani': ['varint'], 'witness': 'C05'},
-    'C19': {'units': ['directory', 'tile_manager'], 'witness': 'C19'},
-    'C08': {'units': ['directory', 'tile_manager', 'read_directories'], 'witness': 'C08'},
     'C06': {'units': ['write_directories', 'directory'], 'witness': 'C06'},
-    'C11': {'units': ['read_directories'], 'witness': 'C11'},
-    'C03': {'units': ['directory', 'read_directories', 'tile_manager'], 'witness': 'C03'},
-    'C04': {'units': ['tile_manager'], 'witness': 'C04'},
+    'C07': {'units': ['pmtiles'], 'kani': ['tile_id'], 'witness': 'C07'},
+    'C08': {'units': ['directory', 'tile_manager', 'read_directories', 'header', 'pmtiles', 'write_directories'], 'witness': 'C08'},
+    'C09': {'units': ['header', 'pmtiles'], 'kani': ['latlng'], 'witness': 'C09'},
     'C10': {'units': ['tile_manager'], 'witness': 'C10'},
+    'C11': {'units': ['read_directories', 'pmtiles'], 'witness': 'C11'},
+    'C12': {'units': ALL, 'witness': 'C12'},
+    'C13': {'units': ALL, 'witness': 'C13'},
+    'C15': {'units': ALL, 'witness': 'C15'},
+    'C16': {'units': ['pmtiles', 'tile_manager'], 'kani': ['latlng'], 'witness': 'C16'},
+    'C17': {'units': ['pmtiles', 'header', 'write_directories', 'directory'], 'witness': 'C17'},
+    'C18': {'units': ['pmtiles', 'write_directories', 'header'], 'witness': 'C18'},
+    'C19': {'units': ['directory', 'tile_manager', 'pmtiles'], 'witness': 'C19'},
+    'C20': {'units': ['pmtiles', 'tile_manager', 'read_directories', 'directory', 'header'], 'witness': 'C20'},
 }
